@@ -126,8 +126,20 @@ func Solve(script string, timeoutS int, quantified bool, needAgree bool) SolveRe
 	var best *SolveResult
 	var others []SolveResult
 	var unsats []SolveResult
+	// thorough tier: after the first unsat, the other solvers get a bounded grace period to agree (or to disagree)
+	var grace <-chan time.Time
 	for i := 0; i < n; i++ {
-		r := <-ch
+		var r SolveResult
+		select {
+		case r = <-ch:
+		case <-grace:
+			cancel()
+			go func() { wg.Wait() }()
+			return unsats[0]
+		}
+		if r.Status == "unsat" && needAgree && len(unsats) == 0 {
+			grace = time.After(15 * time.Second)
+		}
 		switch r.Status {
 		case "unsat":
 			unsats = append(unsats, r)
